@@ -281,7 +281,7 @@ impl<const N: usize> CdrDeserialize for [u8; N] {
 impl CdrDeserialize for String {
     fn cdr_deserialize<'a>(de: &mut CdrDeserializer<'a>) -> CdrResult<Self> {
         let length = UnsignedLong::cdr_deserialize(de)?;
-        let character_data = de.read_bytes(length as usize - 1)?.to_vec();
+        let character_data = de.read_bytes(length.saturating_sub(1) as usize)?.to_vec();
         Octet::cdr_deserialize(de)?; // 0-termination
         String::from_utf8(character_data).map_err(|_| CdrError::InvalidData)
     }
